@@ -907,7 +907,7 @@ func runC14(c *core.Ctx) {
 					}
 					bs := "None"
 					if buf > 0 {
-						bs = fmt.Sprintf("(Some %d)", buf)
+						bs = fmt.Sprintf("(Some %d%%N)", buf)
 					}
 					fl := fmt.Sprintf("(ErrAt %d)", k)
 					if kind == "short" {
